@@ -84,6 +84,10 @@ func (w *world) idArgs(p *idParams) idArgs {
 	a.syms = syms
 	a.parts = make([]map[wallet.BackendID]wallet.Address, len(syms))
 	for i, s := range syms {
+		if s == "W0" { // a participant without any address: an empty, non-nil map (what a decoder makes of a declared length 0)
+			a.parts[i] = map[wallet.BackendID]wallet.Address{}
+			continue
+		}
 		a.parts[i] = map[wallet.BackendID]wallet.Address{channel.TestBackendID: w.walletAddr(s)}
 	}
 	if p.App != "nil" {
